@@ -254,6 +254,10 @@ pub struct IndexOpts {
     /// computed from every block stored in each file (stale ones included, as Core counts them)
     #[serde(default, skip_serializing_if = "is_false")]
     pub file_info: bool,
+    /// active records below this height are written as a pruned node keeps them: validity level only, no
+    /// HAVE_DATA / HAVE_UNDO, no file number or offsets (their hashes still link the first processed block)
+    #[serde(default, skip_serializing_if = "is_zero_u64")]
+    pub pruned_below: u64,
 }
 fn is_zero_u64(x: &u64) -> bool {
     *x == 0
@@ -447,6 +451,10 @@ pub struct RunSpec {
     /// data lives says nothing about the coin
     #[serde(default, skip_serializing_if = "Option::is_none")]
     pub dir_alias: Option<String>,
+    /// how heights are spelled on the command line: 0 plain decimal, 1 zero-padded to 7 digits
+    /// (`seq -w`, `printf %07d`), 2 with a leading `+`
+    #[serde(default, skip_serializing_if = "is_zero_u8")]
+    pub height_style: u8,
 }
 fn yes() -> bool {
     true
@@ -473,6 +481,7 @@ impl RunSpec {
             vlimit_mb: None,
             omit_coin: false,
             dir_alias: None,
+            height_style: 0,
         }
     }
 }
